@@ -95,9 +95,8 @@ def check_enter_word(res, cfg, word, status, reset_names, help_on, has_history):
             ('E.text', 'E.text_mut', 'E.cursor', 'E.len', 'E.text_range') + tuple('E.' + n for n in reset_names)]
     ob('no-other-edit', not emut, "mutates the editor other than by rewrite and reset: %s" % emut)
     if status == 'Ok':
-        endok = len(word) >= 3 and word[-3] in tuple('E.' + n for n in reset_names) and word[-2] in ('W:prompt', 'W:var') \
-            and word[-1] == 'F'
-        ob('reset-then-prompt', endok, "does not end with editor reset, one prompt, flush")
+        endok = len(word) >= 2 and word[-2] in tuple('E.' + n for n in reset_names) and word[-1] in ('W:prompt', 'W:var')
+        ob('reset-then-prompt', endok, "does not end with editor reset and one prompt")
         ob('one-prompt', count(word, lambda l: l == 'W:prompt') <= 1, "prints the prompt more than once")
 
 
@@ -172,6 +171,7 @@ def run(ctx, res):
         eff = base.editor_effects(lib)
         reset_names = [e['name'] for e in eff.values() if e['reset']]
         ses, words, I = session.process_byte_words(lib)
+        words = session.shaped(words)      # flushes are C15's; an empty text skipped = an empty write
         if 'Enter' not in words or len(words) < 9:
             raise KeyError("process_byte: key arms not found (%s)" % sorted(words))
         if not ses.sites.get('DISPATCH'):
@@ -191,6 +191,7 @@ def run(ctx, res):
                 res.samples.append("Enter/%s: %s" % (status, " ".join(word)))
         for api in ('cli::Cli::write', 'cli::Cli::set_prompt'):
             r2, ws = session.api_words(lib, api)
+            ws = session.shaped(ws)
             for word, status in ws:
                 nd = sum(1 for l in word if l.startswith('DISPATCH'))
                 res.oblige("D1|%s|%s|%s|%s" % (cfg, api, status, " ".join(word)), nd == 0,
